@@ -83,4 +83,8 @@ var Map zconst.LangMap = map[zconst.ZogType]map[zconst.ZogIssueCode]string{
 		zconst.IssueCodeZHTTPInvalidForm:  "Formulario no válido",
 		zconst.IssueCodeZHTTPInvalidQuery: "Parámetros de consulta no válidos",
 	},
+	// schemas made with z.CustomFunc (their issues carry the type "custom")
+	"custom": {
+		zconst.IssueCodeFallback: "No es válido",
+	},
 }
